@@ -329,9 +329,6 @@ pub fn run(c: &mut Ctx) {
     let hi_day = NaiveDate::MAX.num_days_from_ce() as i64;
     let mid = NaiveDate::from_ymd_opt(2015, 6, 30).unwrap();
     let with_vals: Vec<u32> = vec![0, 1, 11, 12, 23, 24, 25, 58, 59, 60, 61, 1_193_046, 71_582_788, 71_582_789, i32::MAX as u32, u32::MAX];
-    // C07_STRICT_STD=1 turns the std-Duration observation (see below) into an oracle failure
-    let strict_std = std::env::var("C07_STRICT_STD").map(|v| v == "1").unwrap_or(false);
-    let mut std_sampled = false;
     let n_diff_per_sec = c.n(3, 24);
     let n_addx_per_sec = c.n(1, 6);
     for secs in 0u32..86_400 {
@@ -564,7 +561,7 @@ pub fn run(c: &mut Ctx) {
             let frac = gen_frac(c);
             let t = mk(secs, frac);
             let ds: u64 = match c.rng.below(4) {
-                0 => *c.rng.pick(&[0u64, 1, 86_399, 86_400, 172_799, 172_800, 172_801, 345_600, 172_800 * 1000, u64::MAX, u64::MAX - 1, i64::MAX as u64, i64::MAX as u64 + 1]),
+                0 => *c.rng.pick(&[0u64, 1, 86_399, 86_400, 86_401, 172_799, 172_800, 172_801, 259_200, 345_600, 172_800 * 1000, 86_400 * 1000 + 1, u64::MAX, u64::MAX - 1, i64::MAX as u64, i64::MAX as u64 + 1]),
                 1 => c.rng.next(),
                 _ => c.rng.below(200_000),
             };
@@ -572,21 +569,28 @@ pub fn run(c: &mut Ctx) {
             let dur = Duration::new(ds, df);
             c.op(&format!("tm.addstd {secs} {frac} {ds} {df}"), &gs(|| t + dur, |x| show_t(&x)));
             c.op(&format!("tm.substd {secs} {frac} {ds} {df}"), &gs(|| t - dur, |x| show_t(&x)));
-            // observation (counted, not failed — see `add_std_leap_counterexample` in Props/C07.lean):
-            // the std-Duration operators reduce the seconds modulo two days *before* the leap-second
-            // rules are applied, so on a leap-second operand they can differ from TimeDelta addition
-            if (frac as i128) >= NS && ds <= i64::MAX as u64 / 1000 {
+            // oracle: on every operand (leap-second representations included) the std-Duration
+            // operators give the same time as TimeDelta addition of the same amount, and the closed form
+            if ds <= i64::MAX as u64 / 1000 {
                 let td = TimeDelta::new(ds as i64, df).unwrap();
-                if let (Ok(x), Ok(y), Ok(x2), Ok(y2)) = (guard(|| t + dur), guard(|| t + td), guard(|| t - dur), guard(|| t - td)) {
-                    c.count(if x == y && x2 == y2 { "std:leap-operand-agrees-with-TimeDelta" } else { "std:leap-operand-DIFFERS-from-TimeDelta(known observation)" });
-                    if x != y || x2 != y2 {
-                        let text = format!("NaiveTime({secs},{frac}) +/- Duration({ds}s,{df}ns) = {} / {} but +/- TimeDelta of the same amount = {} / {}", show_t(&x), show_t(&x2), show_t(&y), show_t(&y2));
-                        if strict_std {
-                            fl.hit(c, "NaiveTime +/- std Duration on a leap-second operand differs from TimeDelta addition (seconds reduced modulo two days first)", &text);
-                        } else if !std_sampled {
-                            std_sampled = true;
-                            c.sample(&format!("observation (not failed): {text}"));
+                match (guard(|| t + dur), guard(|| t + td), guard(|| t - dur), guard(|| t - td)) {
+                    (Ok(x), Ok(y), Ok(x2), Ok(y2)) => {
+                        c.count(if (frac as i128) >= NS { "std:leap-operand" } else { "std:nonleap-operand" });
+                        if x != y || x2 != y2 {
+                            fl.hit(c, "NaiveTime +/- std Duration differs from TimeDelta addition of the same amount",
+                                &format!("NaiveTime({secs},{frac}) +/- Duration({ds}s,{df}ns) = {} / {} but +/- TimeDelta = {} / {}", show_t(&x), show_t(&x2), show_t(&y), show_t(&y2)));
                         }
+                    }
+                    _ => fl.hit(c, "NaiveTime +/- std Duration panicked", &format!("tm.addstd {secs} {frac} {ds} {df}")),
+                }
+            }
+            {
+                let dn = ds as i128 * NS + df as i128;
+                if let (Ok(x), Ok(x2)) = (guard(|| t + dur), guard(|| t - dur)) {
+                    let (e, e2) = (spec_add(secs, frac, dn), spec_add(secs, frac, -dn));
+                    if raw(&x) != (e.0, e.1) || raw(&x2) != (e2.0, e2.1) {
+                        fl.hit(c, "NaiveTime +/- std Duration is not the extended-line sum with the full amount",
+                            &format!("tm.addstd/substd {secs} {frac} {ds} {df} -> {} / {}", show_t(&x), show_t(&x2)));
                     }
                 }
             }
